@@ -15,6 +15,7 @@ from ...pyutils import Undefined
 from ...type import (
     GraphQLSchema,
     GraphQLType,
+    get_named_type,
     is_input_object_type,
     is_non_null_type,
     is_nullable_type,
@@ -48,7 +49,8 @@ class VariablesInAllowedPositionRule(ValidationRule):
 
         for usage in usages:
             node, type_ = usage.node, usage.type
-            parent_type = usage.parent_type
+            # the parent type may be wrapped (e.g. an argument of type "OneOf!")
+            parent_type = get_named_type(usage.parent_type)
             default_value = usage.default_value
             var_name = node.name.value
             var_def = usage.fragment_variable_definition
